@@ -298,8 +298,15 @@ fn part_c_plugins(rep: &Reporter) -> J {
                 let user = doc.defs.iter_mut().find(|d| d.name_str() == "User" && !d.ext).unwrap();
                 user.dirs.push(dir("model", vec![("type", Value::Str(P::default(), "import('x').U".into()))]));
             }
-            for with_namesakes in [false, true] {
+            for (with_namesakes, only_query_root) in [(false, false), (true, false), (false, true), (true, true)] {
             let mut doc = doc.clone();
+            if only_query_root {
+                // an undecorated schema definition listing only `query: Query`, while `type Mutation` stays an ordinary type
+                if let Some(sd) = doc.defs.iter_mut().find(|d| d.kind == TsKind::Schema && !d.ext) {
+                    sd.roots.retain(|r| r.0 == OpKind::Query);
+                    sd.dirs.clear();
+                }
+            }
             if with_namesakes {
                 // types of every kind named like the directives plugins and nitrogql itself own
                 let mut e = TsDef::new(TsKind::Enum, Some("model"));
@@ -338,7 +345,7 @@ fn part_c_plugins(rep: &Reporter) -> J {
             let args: Vec<String> = ["--config-file", "graphql.config.yaml", "--output-format", "json", "generate"].iter().map(|s| s.to_string()).collect();
             let r = cli::run(&dirp, &args, &[], Duration::from_secs(30));
             runs += 1;
-            let case = |extra: J| json!({"part": "C", "plugins": plugins, "model_directive_used": with_model_use, "types_named_like_directives": with_namesakes, "files": [schema_text], "config": y, "detail": extra});
+            let case = |extra: J| json!({"part": "C", "plugins": plugins, "model_directive_used": with_model_use, "types_named_like_directives": with_namesakes, "schema_definition_lists_only_query": only_query_root, "files": [schema_text], "config": y, "detail": extra});
             if r.code != Some(0) {
                 rep.report(Violation { key: "plugins.generate_fails".into(), what: format!("generate exits with {:?} on a valid project with plugins {plugins:?}", r.code), case: case(json!({"stdout": r.stdout, "stderr": r.stderr})) });
                 continue;
